@@ -57,6 +57,10 @@ func (i *Iter) Result() Result {
 // Future messages will still be received but will be handled by the fallback
 // handler instead.
 func (i *Iter) Close() error {
+	// An iterator that never tracked a query (see FetchIQ) has nothing to remove.
+	if i.h == nil {
+		return nil
+	}
 	i.h.remove(i.id)
 	return nil
 }
